@@ -1,12 +1,14 @@
 #!/usr/bin/env python3
-"""import_r2.py <confirm.tsv>: copies confirmed round-2 changes from /tmp/wt/r2-<Cnn>-out into /verif/seeded/<id>/."""
+"""import_r2.py <confirm.tsv> [round]: copies confirmed changes of round r2 (default) / r3 from /tmp/wt/<round>-<Cnn>-out into /verif/seeded/<id>/."""
 import sys,json,os,shutil
+rnd=sys.argv[2] if len(sys.argv)>2 else 'r2'
+prev={'r2':'two round-1 changes','r3':'four earlier changes'}[rnd]
 for line in open(sys.argv[1]):
     f=line.strip().split('\t')
     if len(f)<7: continue
     id=f[0]; kv=dict(x.split('=') for x in f[1:])
     ok = kv['apply']=='0' and kv['build']=='0' and kv['suite']=='0' and kv['demo_nopatch']=='0' and kv['demo_patch']!='0'
-    pid=id[:-1]; src=f'/tmp/wt/r2-{pid}-out'
+    pid=id[:-1]; src=f'/tmp/wt/{rnd}-{pid}-out'
     if not ok:
         print('NOT CONFIRMED',line.strip()); continue
     dst=f'/verif/seeded/{id}'; os.makedirs(dst,exist_ok=True)
@@ -14,7 +16,7 @@ for line in open(sys.argv[1]):
     shutil.copy(f'{src}/{id}_demo_test.go',f'{dst}/demo_test.go')
     m=json.load(open(f'{src}/{id}.meta.json'))
     m['id']=id
-    m['origin']='written by an independent sub-agent (round 2) that was given only the property text, the summaries of the two round-1 changes to avoid, and a scratch worktree without the contract files'
+    m['origin']='written by an independent sub-agent (round '+rnd[1]+') that was given only the property text, the summaries of the '+prev+' to avoid, and a scratch worktree without the contract files'
     m['confirmed_by_me']={'how':'tools/confirm_r2.sh in a scratch worktree of /repo (removed afterwards): go build ./..., full suite with the patch, demonstration with and without the patch',
       'worktree_base':kv['base'],'suite_with_patch':'pass','demo_without_patch':'pass','demo_with_patch':'fail'}
     json.dump(m,open(f'{dst}/meta.json','w'),indent=1)
